@@ -132,8 +132,15 @@ def linAnswer (obj h : String) : String :=
 
 /-! #### one line -/
 
+/-- run an operation of the Go layer: new heap and rendered answer, or `panic` -/
+def runGo {β : Type} (st : St) (o : Outcome (Heap Int × β)) (render : β → String) : St × String :=
+  match o with
+  | .ok (h, b) => ({ st with heap := h }, render b)
+  | .err e => (st, "err=" ++ e)
+  | .panic _ => (st, "panic")
+
 def dumpHeap (h : Heap Int) : String :=
-  ";".intercalate (h.toList.map fun n => s!"{n.next},{n.prev},{n.val}")
+  ";".intercalate ((List.range h.size).map fun i => s!"{nx h i},{pv h i},{vl h i}")
 
 def step (st : St) (raw : String) : St × String :=
   let l := parseLine raw
@@ -149,22 +156,22 @@ def step (st : St) (raw : String) : St × String :=
     match l.int? "v" with
     | some v => let (h, r) := alloc st.heap v; ({ st with heap := h }, toString r)
     | none => bad
-  | "rnext" => match ptr? st l "p" with | some p => (st, toString (next st.heap p)) | none => bad
-  | "rprev" => match ptr? st l "p" with | some p => (st, toString (prev st.heap p)) | none => bad
+  | "rnext" => match ptr? st l "p" with | some p => runGo st (Go.next st.heap p) toString | none => bad
+  | "rprev" => match ptr? st l "p" with | some p => runGo st (Go.prev st.heap p) toString | none => bad
   | "rmove" =>
     match ptr? st l "p", l.int? "n" with
-    | some p, some n => (st, toString (move st.heap p n))
+    | some p, some n => runGo st (Go.move st.heap p n) toString
     | _, _ => bad
   | "rlink" =>
     match ptr? st l "p", optPtr? st l "s" with
-    | some p, some s => let (h, r) := link st.heap p s; ({ st with heap := h }, toString r)
+    | some p, some s => runGo st (Go.link st.heap p s) toString
     | _, _ => bad
   | "runlink" =>
     match ptr? st l "p", l.int? "n" with
-    | some p, some n => let (h, r) := unlink st.heap p n; ({ st with heap := h }, showOpt r)
+    | some p, some n => runGo st (Go.unlink st.heap p n) showOpt
     | _, _ => bad
-  | "rlen" => match optPtr? st l "p" with | some p => (st, toString (lenOpt st.heap p)) | none => bad
-  | "rdo" => match optPtr? st l "p" with | some p => (st, showInts (doAll st.heap p)) | none => bad
+  | "rlen" => match optPtr? st l "p" with | some p => runGo st (Go.len st.heap p) toString | none => bad
+  | "rdo" => match optPtr? st l "p" with | some p => runGo st (Go.doAll st.heap p) showInts | none => bad
   | "rset" =>
     match ptr? st l "p", l.int? "v" with
     | some p, some v => ({ st with heap := setVal st.heap p v }, "ok")
